@@ -267,8 +267,18 @@ func checkStrLen(t ev.TB, test string, pl payload) {
 		return
 	}
 	if want.Status == "compile-error" || res.Status == "compile-error" {
-		if want.Status != res.Status && !(res.Err != nil && errors.Is(res.Err, tengo.ErrStringLimit)) {
-			ev.Discard("compile status differs (C01's subject)")
+		wantLimit := want.Status == "compile-error" && want.CErr.Class == "string-limit"
+		gotLimit := res.Status == "compile-error" && strings.Contains(res.ErrText, "exceeding string size limit")
+		if wantLimit && !gotLimit {
+			ev.Fail(t, test, pl, "max=%d: the source has a string literal (or map-literal key) longer than the maximum, expected the string-limit compile error, got status %s (%s)\n--- source ---\n%s", maxLen, res.Status, oneLine(res.ErrText), clip(src))
+			return
+		}
+		if gotLimit && !wantLimit {
+			ev.Fail(t, test, pl, "max=%d: string-limit compile error although no literal exceeds the maximum (%s)\n--- source ---\n%s", maxLen, oneLine(res.ErrText), clip(src))
+			return
+		}
+		if wantLimit {
+			ev.Case(fmt.Sprintf("B%d:%s", maxLen, src), true, "b:strlen", fmt.Sprintf("b:max=%d", maxLen), "b:literal-over-max")
 			return
 		}
 		ev.Discard("does not compile")
